@@ -458,7 +458,7 @@ func (lb *LoadBalancer) AddBackend(backendCfg config.BackendConfig) error {
 
 		// Performance optimizations
 		ForceAttemptHTTP2:  true,  // Use HTTP/2 when available
-		DisableCompression: false, // Let backend handle compression
+		DisableCompression: true, // Pass Accept-Encoding / Content-Encoding through untouched; the backend handles compression
 	}
 
 	proxy.Transport = transport
